@@ -327,12 +327,15 @@ unsigned MessageBase::move_legal(MessageBase *to, bool force)
 			if (pp._field_traits & FieldTrait::group)
 			{
 				auto gitr(_groups.find(pp._fnum));
-				GroupBase *gb1(to->find_group(pp._fnum));
-				if (gb1)
-					delete to->replace(pp._fnum, gitr->second);
-				else
-					*to += gitr->second;
-				gitr->second = nullptr;
+				if (gitr != _groups.end())	// a count of 0 has no group object
+				{
+					GroupBase *gb1(to->find_group(pp._fnum));
+					if (gb1)
+						delete to->replace(pp._fnum, gitr->second);
+					else
+						*to += gitr->second;
+					gitr->second = nullptr;
+				}
 			}
 
 			auto itr(_fields.find(pp._fnum));
